@@ -96,8 +96,10 @@ def _one(c, U, jax, jnp, log_density):
     params, _ = U.sample_latents(build(), seed=c["seed"] % 1000)
     data0 = [np.asarray(f.data) for f in inner]
     rms0 = [np.asarray(f.rms) for f in inner]
-    good = [np.asarray(f.mask) for f in inner]
+    stored = [np.asarray(f.mask) for f in inner]
     user_nonzero = [None if m is None else (np.asarray(m) != 0) for m in masks]
+    # ground truth for the oracle: the user's mask decides (True / non-zero = ignore), not what the fitter stored
+    good = [np.ones_like(st, dtype=bool) if un is None else ~un for st, un in zip(stored, user_nonzero)]
 
     def ld(ds, rs):
         for f, d, r in zip(inner, ds, rs):
@@ -149,7 +151,7 @@ def _one(c, U, jax, jnp, log_density):
             changed.append(bool(np.asarray(ld(ds, r_in)) != base))
     for f, d, r in zip(inner, data0, rms0):
         f.data, f.rms = jnp.asarray(d), jnp.asarray(r)
-    return dict(base=base, variants=variants, gd=gd, gr=gr, good=good, user_nonzero=user_nonzero, changed=changed,
+    return dict(base=base, variants=variants, gd=gd, gr=gr, good=good, stored=stored, user_nonzero=user_nonzero, changed=changed,
                 finite=bool(np.isfinite(base)), rms_zero=rms_zero)
 
 
@@ -260,7 +262,7 @@ def correspondence(ctx):
         if c["mask_style"] not in ("none", "empty"):
             distinct.add((c["loss"], c["kind"], c["mask_style"], c["mask_dtype"]))
         # used set on the real code vs the model's parse of the user's mask
-        for b, (gd, g, un) in enumerate(zip(r["gd"], r["good"], r["user_nonzero"])):
+        for b, (gd, g, un) in enumerate(zip(r["gd"], r["stored"], r["user_nonzero"])):
             n = g.size
             if un is None:
                 pm_lines.append(f"pm {n} -")
@@ -298,7 +300,8 @@ def oracle_search(ctx, hints):
     cases = [h["case"] for h in hints[:20] if isinstance(h.get("case"), dict) and "loss" in h["case"] and "kind" in h["case"]]
     for l in LOSSES:
         for kind in ("single", "multiband"):
-            cases.append(dict(loss=l, kind=kind, mask_style="random", mask_dtype="bool", seed=int(rng.integers(0, 2 ** 31)), N=10))
+            cases.append(dict(loss=l, kind=kind, mask_style="random", mask_dtype=["bool", "int", "float"][len(cases) % 3],
+                              seed=int(rng.integers(0, 2 ** 31)), N=10))
     nchunk = 4
     chunks = [cases[i::nchunk] for i in range(nchunk)]
     res = run_children("c06", "real_eval", [dict(cases=ch) for ch in chunks], workers=nchunk)
